@@ -152,10 +152,13 @@ def classify_handler(g: CFG, h: ast.ExceptHandler) -> list[tuple[str, Node, list
     while stack:
         n, path = stack.pop()
         for t, lab in n.succ:
-            if inside(t) and lab != "exc":
+            if inside(t) and lab not in ("exc", "reraise"):
                 if t.id not in seen:
                     seen.add(t.id)
                     stack.append((t, path + [t]))
+                continue
+            if lab == "reraise":
+                out.append(("raise-from-cleanup", n, path))
                 continue
             if lab == "exc":
                 if n.kind == "raise":
@@ -220,3 +223,100 @@ def the(items: list, what: str, fi: FunctionInfo | None = None):
 
 def self_attr(e: ast.AST | None, attr: str | None = None, base: str = "self") -> bool:
     return is_attr_of(e, base, attr)
+
+
+# ---------------------------------------------------------------------- scenario evaluation (abstract branch pruning)
+NOVALUE = object()
+
+
+def eval_expr(e: ast.AST, env: Callable[[ast.AST], object]) -> object:
+    """Tiny evaluator for guard expressions.  `env(sub)` returns a concrete value for a recognised
+    sub-expression or NOVALUE.  Anything it cannot evaluate yields NOVALUE (both branches kept)."""
+    v = env(e)
+    if v is not NOVALUE:
+        return v
+    if isinstance(e, ast.Constant):
+        return e.value
+    if isinstance(e, ast.NamedExpr):
+        return eval_expr(e.value, env)
+    if isinstance(e, ast.UnaryOp) and isinstance(e.op, ast.Not):
+        v = eval_expr(e.operand, env)
+        return NOVALUE if v is NOVALUE else (not v)
+    if isinstance(e, ast.UnaryOp) and isinstance(e.op, ast.USub):
+        v = eval_expr(e.operand, env)
+        return NOVALUE if v is NOVALUE else -v  # type: ignore[operator]
+    if isinstance(e, ast.BoolOp):
+        vals = [eval_expr(v, env) for v in e.values]
+        if isinstance(e.op, ast.And):
+            if any(v is not NOVALUE and not v for v in vals):
+                return False
+            return NOVALUE if any(v is NOVALUE for v in vals) else vals[-1]
+        if any(v is not NOVALUE and v for v in vals):
+            return True
+        return NOVALUE if any(v is NOVALUE for v in vals) else vals[-1]
+    if isinstance(e, ast.BinOp) and isinstance(e.op, (ast.Add, ast.Sub)):
+        l, r = eval_expr(e.left, env), eval_expr(e.right, env)
+        if l is NOVALUE or r is NOVALUE:
+            return NOVALUE
+        try:
+            return l + r if isinstance(e.op, ast.Add) else l - r  # type: ignore[operator]
+        except TypeError:
+            return NOVALUE
+    if isinstance(e, ast.Compare):
+        left = eval_expr(e.left, env)
+        result: object = True
+        for op, comp in zip(e.ops, e.comparators):
+            right = eval_expr(comp, env)
+            if left is NOVALUE or right is NOVALUE:
+                return NOVALUE
+            try:
+                if isinstance(op, ast.Eq):
+                    ok = left == right
+                elif isinstance(op, ast.NotEq):
+                    ok = left != right
+                elif isinstance(op, ast.Lt):
+                    ok = left < right  # type: ignore[operator]
+                elif isinstance(op, ast.LtE):
+                    ok = left <= right  # type: ignore[operator]
+                elif isinstance(op, ast.Gt):
+                    ok = left > right  # type: ignore[operator]
+                elif isinstance(op, ast.GtE):
+                    ok = left >= right  # type: ignore[operator]
+                elif isinstance(op, ast.Is):
+                    ok = left is right
+                elif isinstance(op, ast.IsNot):
+                    ok = left is not right
+                else:
+                    return NOVALUE
+            except TypeError:
+                return NOVALUE
+            if not ok:
+                return False
+            left = right
+        return result
+    return NOVALUE
+
+
+def scenario(g: CFG, env: Callable[[ast.AST], object]) -> Callable[[Node, Node, str], bool]:
+    """skip_edge predicate that removes the branch edges contradicting the scenario `env`."""
+    cache: dict[int, object] = {}
+
+    def skip(a: Node, b: Node, lab: str) -> bool:
+        if a.kind != "test" or lab not in ("T", "F"):
+            return False
+        if a.id not in cache:
+            cache[a.id] = eval_expr(a.ast, env)  # type: ignore[arg-type]
+        v = cache[a.id]
+        if v is NOVALUE:
+            return False
+        return lab != ("T" if v else "F")
+
+    return skip
+
+
+def both(*preds: Callable[[Node, Node, str], bool]) -> Callable[[Node, Node, str], bool]:
+    return lambda a, b, lab: any(p(a, b, lab) for p in preds)
+
+
+def normal_only(a: Node, b: Node, lab: str) -> bool:
+    return lab in ("exc", "reraise")
